@@ -398,7 +398,11 @@ def oracle_parse(ctx, name, a, b, cpath, with_pos=False):
             else:
                 continue
             judged += 1
-            why = judge_parse(rep, name, line, lines, toks, with_pos)
+            try:
+                why = judge_parse(rep, name, line, lines, toks, with_pos)
+            except RecursionError:
+                rep.count("oracle:parse too deep for the independent reader")
+                continue
             if why:
                 bad += 1
                 if bad <= 5:
@@ -676,6 +680,7 @@ def oracle_clear(ctx, name, a, b, cpath):
 
 
 STMT_NAME = re.compile(r"^(=|D|X|S):\{\d+@\d+:\d+:([0-9a-f-]+)")
+BARE_NAME = re.compile(r"^E:I\{26@\d+:\d+:([0-9a-f]+):[0-9a-f]+\}$")
 
 
 def documented_builtin_names():
@@ -688,8 +693,10 @@ def oracle_guarded(ctx, name, a, b, cpath):
     rep = ctx["rep"]
     names = documented_builtin_names()
     n = bad = 0
+    unbound = 0
     for cid, lines in a.items():
         target = {}
+        bare = {}
         for l in lines:
             p = l.split(" ")
             if len(p) >= 3 and p[0][:1] == "T" and p[1][:1] == "S" and p[1][1:].isdigit():
@@ -699,6 +706,19 @@ def oracle_guarded(ctx, name, a, b, cpath):
                         target[(p[0], p[1][1:])] = unhx(m.group(2))
                     except Exception:
                         pass
+                mb = BARE_NAME.match(p[2])
+                if mb:
+                    try:
+                        bare[(p[0], p[1][1:])] = unhx(mb.group(1))
+                    except Exception:
+                        pass
+            elif len(p) >= 4 and p[0][:1] == "T" and p[1][:1] == "O" and (p[0], p[1][1:]) in bare:
+                nm = bare[(p[0], p[1][1:])]
+                if nm in names and p[2] == "err" and p[3] == "unknownVariable":
+                    unbound += 1
+                    if unbound <= 3:
+                        rep.violation("the built-in name %r is not bound" % nm, case=engine.find_case(cpath, cid), impl=[l], stream=name,
+                                      oracle="every documented built-in name stays bound whatever the session did (assignments to it, deletions of it and `clear` leave it alone)")
             elif len(p) >= 3 and p[0][:1] == "T" and p[1][:1] == "O" and (p[0], p[1][1:]) in target:
                 nm = target[(p[0], p[1][1:])]
                 if nm in names:
@@ -710,6 +730,7 @@ def oracle_guarded(ctx, name, a, b, cpath):
                                           stream=name, oracle="assignment to, definition on and deletion of a documented built-in name must produce a diagnostic")
     rep.count("oracle:guarded statements judged", n)
     rep.oblige("stream %s: every statement targeting a documented built-in name is refused (%d statements)" % (name, n), bad == 0, "%d accepted" % bad)
+    rep.oblige("stream %s: no documented built-in name is ever unbound" % name, unbound == 0, "%d reads of an unbound built-in" % unbound)
 
 
 LINE_COL = re.compile(r"^Line (\d+), Column (\d+) :: \S")
